@@ -271,8 +271,9 @@ def registry_snapshot():
 
 
 def _bypass_list():
+    # observed on the loader itself (the row it builds for a user who lists nothing), not read off a class attribute
     from bert_e.settings import PrAuthorsOptions
-    return [str(x) for x in PrAuthorsOptions.BYPASS_LIST]
+    return [str(x) for x in PrAuthorsOptions().deserialize({'probe': []})['probe']]
 
 
 def gen_facts(ctx):
@@ -321,7 +322,7 @@ Definition commands_except : list (string * (string * bool)) := %s.
 (* tripwires: the regex literals found in handle_options / handle_commands *)
 Definition regex_handle_options : list string := %s.
 Definition regex_handle_commands : list string := %s.
-(* PrAuthorsOptions.BYPASS_LIST of bert_e/settings.py, read from the live class *)
+(* the bypass names of bert_e/settings.py (PrAuthorsOptions), observed on the live loader *)
 Definition pr_author_bypass_list : list string := %s.
 ''' % (core.REPO, ';\n    '.join(entries), pairs(opt_tab), pairs(cmd_tab),
        coq_list(map(coq_str, lits['handle_options'])), coq_list(map(coq_str, lits['handle_commands'])),
